@@ -103,7 +103,10 @@ def handle (inp out : Sexp) : CaseResult :=
           (match t with | .fixed _ => "target-fixed" | .placeholder _ => "target-placeholder"),
           (if ci == 0 then "idx0" else "idx-nonzero"),
           (if (lookupR cn p.regions).isSome then "counter-predeclared" else "counter-new"),
-          s!"defs{min p.defs.length 6}", s!"regions{min p.regions.length 4}"]
+          s!"defs{min p.defs.length 6}", s!"regions{min p.regions.length 4}",
+          -- Program::is_empty() holds although the program has definitions (len() ignores calibrations)
+          (if p.regions.isEmpty && p.body.isEmpty && !p.defs.isEmpty && p.defs.all (fun d => d.startsWith "DEFCAL")
+           then "calibrations-only-program" else "not-calibrations-only")]
           ++ (if !st then ["STRUCTURE-FAIL"] else [])
         { agree := agree, specOk := st && beh,
           nontrivial := n ≥ 2 && btag == "ran" && !p.body.isEmpty,
